@@ -6,6 +6,7 @@ import (
 	"crypto/sha256"
 	"encoding/hex"
 	"fmt"
+	"runtime/debug"
 	"sort"
 	"strings"
 	"sync"
@@ -80,18 +81,19 @@ type msgRec struct {
 }
 
 type world struct {
-	c        Case
-	inf      *info
-	cl       *hx.Cluster
-	pool     *pool
-	signer   map[string]*Ident // DAG block -> effective signer when it was written (nil: none)
-	producer map[string]int    // DAG block -> author node that wrote it
-	msgs     []msgRec
-	docIDs   map[int]string
-	has      []map[int]bool
-	deleted  map[int]bool
-	remote   []map[string]bool // node -> docID -> node merged remote commits of that doc
-	log      []string
+	c          Case
+	inf        *info
+	cl         *hx.Cluster
+	pool       *pool
+	signer     map[string]*Ident // DAG block -> effective signer when it was written (nil: none)
+	producer   map[string]int    // DAG block -> author node that wrote it
+	msgs       []msgRec
+	docIDs     map[int]string
+	has        []map[int]bool
+	deleted    map[int]bool
+	remote     []map[string]bool // node -> docID -> node merged remote commits of that doc
+	lastDocMsg map[int]*hx.Msg
+	log        []string
 	// deferred is a failure that does not invalidate the rest of the case (reported at the end)
 	deferred *hx.Failure
 }
@@ -122,11 +124,11 @@ func authorOpts(c Case) func(i int) []node.Option {
 
 // absorb walks the closure of root in node n's blockstore and adds unseen blocks to the pool,
 // attributing them to the given signer.
-func (w *world) absorb(nodeIdx int, root cid.Cid, signer *Ident, op int) {
+func (w *world) absorb(nodeIdx int, root cid.Cid, signer *Ident, tag string) {
 	n := w.cl.Nodes[nodeIdx]
 	bs := datastore.BlockstoreFrom(n.DB.Rootstore())
-	var walk func(c cid.Cid, isSig bool)
-	walk = func(c cid.Cid, isSig bool) {
+	var walk func(c cid.Cid, sigOf string)
+	walk = func(c cid.Cid, sigOf string) {
 		k := c.String()
 		if _, ok := w.pool.raw[k]; ok {
 			return
@@ -136,22 +138,22 @@ func (w *world) absorb(nodeIdx int, root cid.Cid, signer *Ident, op int) {
 			hx.Harnessf("author n%d lacks block %s of its own closure: %v", nodeIdx, k, err)
 		}
 		raw := append([]byte{}, b.RawData()...)
-		if isSig {
-			w.pool.add(c, raw, true, false, fmt.Sprintf("signature-block-written-by-op%d", op))
+		if sigOf != "" {
+			w.pool.add(c, raw, true, false, "signature-of["+sigOf+"]")
 			return
 		}
 		blk, err := coreblock.GetFromBytes(raw)
 		if err != nil {
 			hx.Harnessf("author block %s does not decode: %v", k, err)
 		}
-		// children first, so pool order is bottom-up
+		label := tag + "/" + describe(blk)
 		for _, l := range blk.AllLinks() {
-			walk(l.Cid, false)
+			walk(l.Cid, "")
 		}
 		if blk.Signature != nil {
-			walk(blk.Signature.Cid, true)
+			walk(blk.Signature.Cid, label)
 		}
-		w.pool.add(c, raw, false, false, fmt.Sprintf("op%d/%s", op, describe(blk)))
+		w.pool.add(c, raw, false, false, label)
 		w.signer[k] = signer
 		w.producer[k] = nodeIdx
 		// re-encoding must be the identity, else forged blocks would differ in more than the mutation
@@ -160,7 +162,7 @@ func (w *world) absorb(nodeIdx int, root cid.Cid, signer *Ident, op int) {
 			hx.Harnessf("block %s does not re-encode to itself (%s)", k, nc)
 		}
 	}
-	walk(root, false)
+	walk(root, "")
 }
 
 func gqlInput(fields []FieldOp, extra string) string {
@@ -174,6 +176,89 @@ func gqlInput(fields []FieldOp, extra string) string {
 	return "{" + strings.Join(parts, ", ") + "}"
 }
 
+// mutate runs one mutation on one author node and records what it announced.
+func (w *world) mutate(tag string, oi, nodeIdx int, kind string, doc int, fields []FieldOp, req *Ident) ([]hx.Msg, *hx.Failure) {
+	n := w.cl.Nodes[nodeIdx]
+	ctx := n.Ctx
+	signer := w.c.Authors[nodeIdx].Ident
+	if req != nil {
+		ident, err := identity.FromPrivateKey(seedKey(*req))
+		if err != nil {
+			hx.Harnessf("identity: %v", err)
+		}
+		ctx = identity.WithContext(ctx, immutable.Some[identity.Identity](ident))
+		signer = req
+	}
+	docID := w.docIDs[doc]
+	var q string
+	switch kind {
+	case "create":
+		q = fmt.Sprintf(`mutation { create_Users(input: %s) { _docID } }`, gqlInput(fields, fmt.Sprintf("k: %d", doc)))
+	case "update":
+		q = fmt.Sprintf(`mutation { update_Users(docID: %q, input: %s) { _docID } }`, docID, gqlInput(fields, ""))
+	case "delete":
+		q = fmt.Sprintf(`mutation { delete_Users(docID: %q) { _docID } }`, docID)
+	}
+	r := hx.ExecOn(ctx, n.DB, q)
+	if r.Panic != "" {
+		return nil, hx.Failf("C12/panic/mutation", "%s panicked: %s", q, r.Panic)
+	}
+	if !r.OK() {
+		hx.Harnessf("generator produced a mutation the node rejects: %s: %s", q, r.Err())
+	}
+	if kind == "create" {
+		rows := r.Rows("create_Users")
+		if len(rows) != 1 {
+			hx.Harnessf("create returned %d rows", len(rows))
+		}
+		w.docIDs[doc] = fmt.Sprint(rows[0]["_docID"])
+		w.has[nodeIdx][doc] = true
+	}
+	if kind == "delete" {
+		w.deleted[doc] = true
+	}
+	sname := "none"
+	if signer != nil {
+		sname = signer.String()
+	}
+	got := w.cl.Collect(nodeIdx)
+	w.logf("%s n%d %s doc%d %s signer=%s -> %d notifications", tag, nodeIdx, kind, doc, gqlInput(fields, ""), sname, len(got))
+	for _, m := range got {
+		w.absorb(nodeIdx, m.CID(), signer, tag)
+		if !bytes.Equal(m.Block, w.pool.raw[m.Cid]) {
+			return nil, hx.Failf("C12/event-block-differs", "update event for %s carries bytes that differ from the stored block", m.Cid)
+		}
+		w.msgs = append(w.msgs, msgRec{Msg: m, op: oi, idx: len(w.msgs)})
+		if m.DocID != "" {
+			mm := m
+			w.lastDocMsg[doc] = &mm
+		}
+		w.logf("   msg%d doc=%q cid=%s (%s)", len(w.msgs)-1, m.DocID, m.Cid, describe(w.pool.block(m.Cid)))
+	}
+	return got, nil
+}
+
+// sync merges document-level notifications into the other author node (harness delivery: closure copy + synchronous merge).
+func (w *world) sync(msgs []hx.Msg, to int, doc int) bool {
+	ok := true
+	for _, m := range msgs {
+		if m.DocID == "" {
+			continue
+		}
+		if err := w.cl.Deliver(m, to); err != nil {
+			w.inf.flag("author-sync-error")
+			w.logf("   merge into n%d failed: %v", to, err)
+			ok = false
+			continue
+		}
+		w.has[to][doc] = true
+		w.remote[to][m.DocID] = true
+		w.inf.flag("author-sync")
+	}
+	w.cl.Collect(to)
+	return ok
+}
+
 func (w *world) runOps() *hx.Failure {
 	for oi, o := range w.c.Ops {
 		nodeIdx := o.Node % len(w.cl.Nodes)
@@ -185,7 +270,7 @@ func (w *world) runOps() *hx.Failure {
 			w.inf.flag("op-on-deleted-skipped")
 			continue
 		}
-		docID, exists := w.docIDs[doc]
+		_, exists := w.docIDs[doc]
 		kind := o.Kind
 		if !exists {
 			kind = "create"
@@ -202,76 +287,42 @@ func (w *world) runOps() *hx.Failure {
 				}
 			}
 		}
-		n := w.cl.Nodes[nodeIdx]
-		ctx := n.Ctx
-		signer := w.c.Authors[nodeIdx].Ident
-		if o.Req != nil {
-			ident, err := identity.FromPrivateKey(seedKey(*o.Req))
-			if err != nil {
-				hx.Harnessf("identity: %v", err)
+		tag := fmt.Sprintf("op%d", oi)
+		if kind == "fork" {
+			if len(w.cl.Nodes) < 2 {
+				kind = "update"
+			} else {
+				// concurrent updates on both authors, merged on the first: its next commit has two heads
+				other := 1 - nodeIdx
+				if !w.has[other][doc] {
+					if m := w.lastDocMsg[doc]; m == nil || !w.sync([]hx.Msg{*m}, other, doc) {
+						kind = "update"
+					}
+				}
+				if kind == "fork" {
+					if _, f := w.mutate(tag+"a", oi, nodeIdx, "update", doc, o.Fields, o.Req); f != nil {
+						return f
+					}
+					got, f := w.mutate(tag+"b", oi, other, "update", doc, []FieldOp{{Field: "i", Val: fmt.Sprint(100 + oi)}}, nil)
+					if f != nil {
+						return f
+					}
+					if w.sync(got, nodeIdx, doc) {
+						if _, f := w.mutate(tag+"c", oi, nodeIdx, "update", doc, []FieldOp{{Field: "pn", Val: "1"}}, o.Req); f != nil {
+							return f
+						}
+						w.inf.flag("fork-merged")
+					}
+					continue
+				}
 			}
-			ctx = identity.WithContext(ctx, immutable.Some[identity.Identity](ident))
-			signer = o.Req
 		}
-		var q string
-		switch kind {
-		case "create":
-			q = fmt.Sprintf(`mutation { create_Users(input: %s) { _docID } }`, gqlInput(o.Fields, fmt.Sprintf("k: %d", doc)))
-		case "update":
-			q = fmt.Sprintf(`mutation { update_Users(docID: %q, input: %s) { _docID } }`, docID, gqlInput(o.Fields, ""))
-		case "delete":
-			q = fmt.Sprintf(`mutation { delete_Users(docID: %q) { _docID } }`, docID)
-		}
-		r := hx.ExecOn(ctx, n.DB, q)
-		if r.Panic != "" {
-			return hx.Failf("C12/panic/mutation", "%s panicked: %s", q, r.Panic)
-		}
-		if !r.OK() {
-			hx.Harnessf("generator produced a mutation the node rejects: %s: %s", q, r.Err())
-		}
-		key := kind + "_Users"
-		rows := r.Rows(key)
-		if kind == "create" {
-			if len(rows) != 1 {
-				hx.Harnessf("create returned %d rows", len(rows))
-			}
-			docID = fmt.Sprint(rows[0]["_docID"])
-			w.docIDs[doc] = docID
-			w.has[nodeIdx][doc] = true
-		}
-		if kind == "delete" {
-			w.deleted[doc] = true
-		}
-		sname := "none"
-		if signer != nil {
-			sname = signer.String()
-		}
-		got := w.cl.Collect(nodeIdx)
-		w.logf("op%d n%d %s doc%d %s signer=%s -> %d notifications", oi, nodeIdx, kind, doc, gqlInput(o.Fields, ""), sname, len(got))
-		for _, m := range got {
-			w.absorb(nodeIdx, m.CID(), signer, oi)
-			if !bytes.Equal(m.Block, w.pool.raw[m.Cid]) {
-				return hx.Failf("C12/event-block-differs", "update event for %s carries bytes that differ from the stored block", m.Cid)
-			}
-			w.msgs = append(w.msgs, msgRec{Msg: m, op: oi, idx: len(w.msgs)})
-			w.logf("   msg%d doc=%q cid=%s (%s)", len(w.msgs)-1, short(m.DocID), short(m.Cid), describe(w.pool.block(m.Cid)))
+		got, f := w.mutate(tag, oi, nodeIdx, kind, doc, o.Fields, o.Req)
+		if f != nil {
+			return f
 		}
 		if o.Sync && len(w.cl.Nodes) > 1 {
-			other := 1 - nodeIdx
-			for _, m := range got {
-				if m.DocID == "" {
-					continue
-				}
-				if err := w.cl.Deliver(m, other); err != nil {
-					w.inf.flag("author-sync-error")
-					w.logf("   sync to n%d failed: %v", other, err)
-					continue
-				}
-				w.has[other][doc] = true
-				w.remote[other][m.DocID] = true
-				w.inf.flag("author-sync")
-			}
-			w.cl.Collect(other)
+			w.sync(got, 1-nodeIdx, doc)
 		}
 	}
 	return nil
@@ -310,7 +361,7 @@ func linkSystemOf(n *hx.Node) *linking.LinkSystem {
 func (w *world) checkAuthorBlocks() *hx.Failure {
 	idents := allIdents()
 	nSigned, nUnsignedByDesign := 0, 0
-	for _, k := range w.pool.order {
+	for _, k := range w.pool.byName() {
 		if w.pool.isSig[k] || w.pool.forged[k] {
 			continue
 		}
@@ -355,7 +406,7 @@ func (w *world) checkAuthorBlocks() *hx.Failure {
 					w.deferred = hx.Failf(sigColVerify, "VerifySignature(%s, key of %s) = %v for a signed collection-level commit (%s)\n%s", k, exp, err, describe(b), w.history())
 				}
 			} else {
-			return hx.Failf("C12/right-key-rejected/"+exp.KeyType, "VerifySignature(%s, key of %s) = %v; the block (%s) was written by op signer %s\n%s", k, exp, err, describe(b), exp, w.history())
+				return hx.Failf("C12/right-key-rejected/"+exp.KeyType, "VerifySignature(%s, key of %s) = %v; the block (%s) was written by op signer %s\n%s", k, exp, err, describe(b), exp, w.history())
 			}
 		}
 		has, valid, idStr, why := w.pool.refVerify(k)
@@ -369,13 +420,18 @@ func (w *world) checkAuthorBlocks() *hx.Failure {
 		if ran, err := coreblock.VerifyBlockSignature(b, ls); err != nil || !ran {
 			return hx.Failf("C12/right-key-rejected/header-key", "VerifyBlockSignature(%s) = %v, %v", k, ran, err)
 		}
-		for _, id := range idents {
+		for ii, id := range idents {
 			if id == *exp {
 				continue
 			}
 			wrong := seedKey(id).GetPublic()
-			if err := n.DB.VerifySignature(n.Ctx, k, wrong); err == nil {
-				return hx.Failf("C12/wrong-key-accepted/db", "VerifySignature(%s, key of %s) = nil, but the block was signed by %s", k, id, exp)
+			// DB level (costly: collection lookup per call): the neighbour seed of the same type and the same seed of the other type
+			sameTypeNext := id.KeyType == exp.KeyType && id.Seed == (exp.Seed+1)%nSeeds
+			otherTypeSame := id.KeyType != exp.KeyType && id.Seed == exp.Seed
+			if sameTypeNext || otherTypeSame || (ii+nSigned)%7 == 0 {
+				if err := n.DB.VerifySignature(n.Ctx, k, wrong); err == nil {
+					return hx.Failf("C12/wrong-key-accepted/db", "VerifySignature(%s, key of %s) = nil, but the block was signed by %s", k, id, exp)
+				}
 			}
 			if _, err := coreblock.VerifyBlockSignatureWithKey(b, ls, wrong); err == nil {
 				return hx.Failf("C12/wrong-key-accepted/block-level", "VerifyBlockSignatureWithKey(%s, key of %s) = nil, but the block was signed by %s", k, id, exp)
@@ -403,12 +459,12 @@ type recvTap struct {
 	seq       uint64
 }
 
-func newRecvTap(n *hx.Node) *recvTap {
-	sub, err := n.DB.Events().Subscribe(event.MergeName, event.MergeCompleteName, sentinel)
+func newRecvTap(bus event.Bus) *recvTap {
+	sub, err := bus.Subscribe(event.MergeName, event.MergeCompleteName, sentinel)
 	if err != nil {
 		hx.Harnessf("subscribe: %v", err)
 	}
-	t := &recvTap{bus: n.DB.Events(), sub: sub, completes: map[string]int{}, sent: map[uint64]chan struct{}{}}
+	t := &recvTap{bus: bus, sub: sub, completes: map[string]int{}, sent: map[uint64]chan struct{}{}}
 	go func() {
 		for m := range sub.Message() {
 			switch d := m.Data.(type) {
@@ -475,9 +531,15 @@ func (t *recvTap) waitCompletes(c string, n int, d time.Duration) bool {
 }
 
 type receiver struct {
-	name   string
-	n      *hx.Node
-	tap    *recvTap
+	name string
+	n    *hx.Node
+	tap  *recvTap
+	// quarantine: forged and second requests go through a handler bound to a private bus, so that a
+	// wrongly announced merge never reaches the database's asynchronous merger (a panic there would
+	// kill the process); the harness runs such a merge itself, synchronously and recoverably.
+	qbus   event.Bus
+	qtap   *recvTap
+	rvQ    *net.VerifReceiver
 	rv     *net.VerifReceiver
 	honest []msgRec
 }
@@ -488,11 +550,14 @@ func (w *world) newReceiver(name string) *receiver {
 		n.Close()
 		hx.Harnessf("schema rejected: %v", err)
 	}
-	return &receiver{name: name, n: n, tap: newRecvTap(n), rv: net.NewVerifReceiver(n.Ctx, n.DB.Events(), n.DB)}
+	qbus := event.NewChannelBus(100, 100)
+	return &receiver{name: name, n: n, tap: newRecvTap(n.DB.Events()), rv: net.NewVerifReceiver(n.Ctx, n.DB.Events(), n.DB),
+		qbus: qbus, qtap: newRecvTap(qbus), rvQ: net.NewVerifReceiver(n.Ctx, qbus, n.DB)}
 }
 
 func (r *receiver) close() {
 	r.n.DB.Events().Unsubscribe(r.tap.sub)
+	r.qbus.Close()
 	r.n.Close()
 }
 
@@ -662,8 +727,27 @@ func compositeHeads(n *hx.Node, docID string) []string {
 
 // push sends one push-log request through the real handler.
 func (w *world) push(r *receiver, docID, cidStr, collectionID string, block []byte) error {
+	return w.pushVia(r.rv, r, docID, cidStr, collectionID, block)
+}
+
+// pushQuarantined is push through the handler bound to the private bus.
+func (w *world) pushQuarantined(r *receiver, docID, cidStr, collectionID string, block []byte) error {
+	return w.pushVia(r.rvQ, r, docID, cidStr, collectionID, block)
+}
+
+// safeMerge runs the merge an announced Merge event asks for, synchronously; a panic is returned as text.
+func safeMerge(n *hx.Node, e event.Merge) (err error, panicked string) {
+	defer func() {
+		if p := recover(); p != nil {
+			panicked = fmt.Sprintf("%v at %s", p, hx.PanicSite(string(debug.Stack())))
+		}
+	}()
+	return n.DB.VerifMerge(n.Ctx, e), ""
+}
+
+func (w *world) pushVia(rv *net.VerifReceiver, r *receiver, docID, cidStr, collectionID string, block []byte) error {
 	p := w.c.Push
-	return r.rv.PushLog(r.n.Ctx, peerID(p.FromSeed), docID, mustCid(cidStr).Bytes(), collectionID, peerID(p.CreatorSeed+10).String(), block, p.Replicator)
+	return rv.PushLog(r.n.Ctx, peerID(p.FromSeed), docID, mustCid(cidStr).Bytes(), collectionID, peerID(p.CreatorSeed+10).String(), block, p.Replicator)
 }
 
 const mergeWait = 30 * time.Second
@@ -744,7 +828,13 @@ func (w *world) checkHonestState(r *receiver, where string) *hx.Failure {
 	}
 	last := r.honest[len(r.honest)-1]
 	sender := w.cl.Nodes[last.From]
-	for d, cs := range docs {
+	docKeys := make([]string, 0, len(docs))
+	for d := range docs {
+		docKeys = append(docKeys, d)
+	}
+	sort.Strings(docKeys)
+	for _, d := range docKeys {
+		cs := docs[d]
 		want := []string{}
 		for _, k := range cs {
 			if !pointed[k] {
@@ -754,7 +844,7 @@ func (w *world) checkHonestState(r *receiver, where string) *hx.Failure {
 		sort.Strings(want)
 		got := compositeHeads(r.n, d)
 		if strings.Join(got, ",") != strings.Join(want, ",") {
-			return hx.Failf("C12/honest-state/heads/"+where, "document %s on %s has heads %v, the pushed closure's maximal commits are %v\n%s", d, r.name, got, want, w.history())
+			return hx.Failf("C12/honest-state/heads/"+where, "document %s on %s has heads %v, the pushed closure's maximal commits are %v\n%s", d, r.name, w.names(got), w.names(want), w.history())
 		}
 		// differential against local execution, where the sender's state is exactly this history
 		if w.remote[last.From][d] {
@@ -776,6 +866,9 @@ func (w *world) checkHonestState(r *receiver, where string) *hx.Failure {
 	return nil
 }
 
+// mix spreads rapid's small-biased integers over an index range (0 stays 0 for shrinking).
+func mix(x int) int { return int((uint64(x) * 2654435761 >> 9) & 0xffffff) }
+
 func depthClass(d int) string {
 	switch {
 	case d == 0:
@@ -792,7 +885,7 @@ func run(c Case, inf *info) *hx.Failure {
 	if len(c.Authors) == 0 || len(c.Ops) == 0 {
 		return nil
 	}
-	w := &world{c: c, inf: inf, pool: newPool(), signer: map[string]*Ident{}, producer: map[string]int{}, docIDs: map[int]string{}, deleted: map[int]bool{}}
+	w := &world{c: c, inf: inf, pool: newPool(), signer: map[string]*Ident{}, producer: map[string]int{}, docIDs: map[int]string{}, deleted: map[int]bool{}, lastDocMsg: map[int]*hx.Msg{}}
 	w.cl = hx.NewCluster(len(c.Authors), sdl(c.Branchable), authorOpts(c))
 	defer w.cl.Close()
 	f := w.scenario()
@@ -803,6 +896,19 @@ func run(c Case, inf *info) *hx.Failure {
 		f.Msg = w.anon(f.Msg)
 	}
 	return f
+}
+
+func (w *world) names(cids []string) []string {
+	out := []string{}
+	for _, k := range cids {
+		if _, ok := w.pool.label[k]; ok {
+			out = append(out, w.pool.name(k))
+		} else {
+			out = append(out, k)
+		}
+	}
+	sort.Strings(out)
+	return out
 }
 
 // anon replaces every cid the harness knows by a name that is the same in every run of the case, so
@@ -867,11 +973,16 @@ func (w *world) scenario() *hx.Failure {
 	}
 	w.logf("push msg%d (%s)", P.idx, describe(w.pool.block(P.Cid)))
 
-	// ---- honest control on a fresh receiver
-	H := w.newReceiver("control receiver")
-	defer H.close()
-	if f := w.pushHonest(H, P, "control"); f != nil {
-		return f
+	// ---- honest control on a fresh receiver (when the forged receiver will not get the honest push anyway)
+	control := func() *hx.Failure {
+		H := w.newReceiver("control receiver")
+		defer H.close()
+		return w.pushHonest(H, P, "control")
+	}
+	if !c.Push.Post {
+		if f := control(); f != nil {
+			return f
+		}
 	}
 
 	// ---- choose the target and forge
@@ -897,6 +1008,9 @@ func (w *world) scenario() *hx.Failure {
 	}
 	if len(targets) == 0 {
 		inf.flag("no-signed-block-in-closure")
+		if c.Push.Post {
+			return control()
+		}
 		return nil
 	}
 	T := targets[c.Push.Tamper.Target%len(targets)]
@@ -907,7 +1021,7 @@ func (w *world) scenario() *hx.Failure {
 	}
 	tb := w.pool.block(T.cid)
 	kinds := applicable(tb)
-	kind := kinds[c.Push.Tamper.Kind%len(kinds)]
+	kind := kinds[mix(c.Push.Tamper.Kind*257+c.Push.Tamper.Arg)%len(kinds)]
 	otherDocs := []string{}
 	for _, d := range []int{0, 1} {
 		if id, ok := w.docIDs[d]; ok {
@@ -964,6 +1078,9 @@ func (w *world) scenario() *hx.Failure {
 				// e.g. a bit flip the signature encoding tolerates: not a forgery
 				inf.flag("mutation-still-verifies")
 				w.logf("the mutated signature still verifies (independent verifier): not a forgery, nothing asserted")
+				if c.Push.Post {
+					return control()
+				}
 				return nil
 			}
 			w.logf("independent verifier on the forged target: %s", why)
@@ -1000,17 +1117,25 @@ func (w *world) scenario() *hx.Failure {
 		}
 	}
 	docIDArg := P.DocID
-	err := w.push(F, docIDArg, forgedP, P.CollectionID, w.pool.raw[forgedP])
-	evs := F.tap.takeMerges()
+	err := w.pushQuarantined(F, docIDArg, forgedP, P.CollectionID, w.pool.raw[forgedP])
+	evs := F.qtap.takeMerges()
 	if err == nil {
-		// let the announced merge finish so that the report can say what it did
-		changed := ""
-		if len(evs) > 0 && F.tap.waitComplete(forgedP, 2*time.Second) {
-			after, _ := takeSnapshot(F.n, "after accepted forged push")
-			changed = "; the merge completed and changed: " + before.changedParts(after)
+		// run the announced merge so that the report can say what it does
+		effect := ""
+		for _, e := range evs {
+			merr, pan := safeMerge(F.n, e)
+			switch {
+			case pan != "":
+				effect += "; the announced merge panics: " + pan
+			case merr != nil:
+				effect += fmt.Sprintf("; the announced merge fails: %v", merr)
+			default:
+				after, _ := takeSnapshot(F.n, "after accepted forged push")
+				effect += "; the announced merge completes and changes: " + before.changedParts(after)
+			}
 		}
 		return hx.Failf("C12/forged-accepted/"+where+"/"+kindClass, "push of a forged commit was accepted: %s of %s (%s) %d below the pushed block, independent verification of its attached signature fails; PushLog returned nil, %d Merge events%s\n%s",
-			kind, short(T.cid), describe(tb), T.depth, len(evs), changed, w.history())
+			kind, short(T.cid), describe(tb), T.depth, len(evs), effect, w.history())
 	}
 	w.logf("forged push rejected: %v", err)
 	if len(evs) > 0 {
@@ -1034,7 +1159,10 @@ func (w *world) scenario() *hx.Failure {
 			hx.Harnessf("put: %v", err)
 		}
 		if s := w.signer[T.cid]; s != nil {
-			if err := F.n.DB.VerifySignature(F.n.Ctx, forgedT, seedKey(*s).GetPublic()); err == nil {
+			if ok, _ := w.pool.refVerifyWithKey(forgedT, *s); ok {
+				// only the header's type field was changed: the value still is the signer's signature over the content
+				inf.flag("forged-target-still-verifies-under-signer-key")
+			} else if err := F.n.DB.VerifySignature(F.n.Ctx, forgedT, seedKey(*s).GetPublic()); err == nil {
 				return hx.Failf("C12/verify-accepts-tampered/"+kindClass, "VerifySignature(forged %s, original signer's key) = nil after %s of %s (%s)\n%s", short(forgedT), kind, short(T.cid), describe(tb), w.history())
 			}
 			if _, err := coreblock.VerifyBlockSignature(w.pool.block(forgedT), linkSystemOf(F.n)); err == nil {
@@ -1071,39 +1199,50 @@ func (w *world) replay(F *receiver, P msgRec, forgedP, forgedT string, before sn
 			forged[k] = true
 		}
 	}
-	err := w.push(F, P.DocID, forgedP, P.CollectionID, w.pool.raw[P.Cid])
-	evs := F.tap.takeMerges()
+	err := w.pushQuarantined(F, P.DocID, forgedP, P.CollectionID, w.pool.raw[P.Cid])
+	evs := F.qtap.takeMerges()
 	w.logf("second request (honest block %s, cid of forged %s): err=%v, %d Merge events", short(P.Cid), short(forgedP), err, len(evs))
 	named := false
 	for _, e := range evs {
 		k := e.Cid.String()
+		merr, pan := safeMerge(F.n, e)
 		if !forged[k] {
-			if !F.tap.waitComplete(k, mergeWait) {
-				hx.Harnessf("merge announced for honest %s did not complete", e.Cid)
+			if merr != nil || pan != "" {
+				return hx.Failf("C12/honest-merge-failed/second-request", "merge announced for honest %s fails: %v %s\n%s", k, merr, pan, w.history())
 			}
 			continue
 		}
 		named = true
-		// The asynchronous merge only logs a failure. Settle without a long wait: if it has not
-		// completed shortly, run the same merge synchronously; an error there is the error the
-		// asynchronous path hits too (same code, same input), success is only counted when the
-		// asynchronous path also reports completion.
-		if F.tap.waitComplete(k, 200*time.Millisecond) {
-			continue
-		}
-		if err := F.n.DB.VerifMerge(F.n.Ctx, e); err != nil {
+		switch {
+		case pan != "":
+			// the forged commit was handed to the merger, which panics on it (in the real handler: inside a
+			// goroutine). No state change to assert; the malformed-delta panic itself is not a C12 matter.
+			w.inf.flag("replay-merge-of-forged-cid-panics")
+			if i := strings.LastIndex(pan, " at "); i >= 0 {
+				w.inf.flag("forged-merge-panic-site:%s", pan[i+4:])
+			}
+			w.logf("merge of the forged cid panics: %s", pan)
+			return nil // the node is not used after a panic inside it
+		case merr != nil:
 			w.inf.flag("replay-merge-of-forged-cid-fails")
-			w.logf("merge of the forged cid fails: %v", err)
-			continue
-		}
-		if !F.tap.waitCompletes(k, 2, 10*time.Second) {
-			w.inf.flag("replay-merge-of-forged-cid-unsettled")
-			w.logf("asynchronous merge of the forged cid did not report completion: nothing asserted")
-			return nil
+			w.logf("merge of the forged cid fails: %v", merr)
 		}
 	}
+	headDump := dumpStore(F.n, "heads", datastore.HeadstoreFrom(F.n.DB.Rootstore()))
+	forgedHeads := []string{}
+	for k := range forged {
+		if strings.Contains(headDump, k) {
+			forgedHeads = append(forgedHeads, w.pool.name(k))
+		}
+	}
+	sort.Strings(forgedHeads)
 	after, f := takeSnapshot(F.n, "after the second request")
 	if f != nil {
+		if named && err == nil && len(forgedHeads) > 0 {
+			// the forged commit was merged (it is a head); a query that now fails is a consequence
+			return hx.Failf(sigReplay, "a forged commit (%s, depth %d) was first rejected, then merged: the second request carried the honest block %s but named cid %s (the rejected block, retained in the blockstore); forged commits are now heads: %v; afterwards: %s\n%s",
+				kind, depth, P.Cid, forgedP, forgedHeads, f.Msg, w.history())
+		}
 		f.Msg += "\n" + w.history()
 		return f
 	}
@@ -1124,12 +1263,8 @@ func (w *world) replay(F *receiver, P msgRec, forgedP, forgedT string, before sn
 		return hx.Failf(sig, "a forged commit (%s, depth %d) was first rejected, then merged: the second request carried the honest block %s but named cid %s (the rejected block, retained in the blockstore); PushLog returned %v, Merge events %d (forged cid named: %v); forged commits now in the receiver's history: %v; changed: %s\n%s",
 			kind, depth, short(P.Cid), short(forgedP), err, len(evs), named, inHistory, before.changedParts(after), w.history())
 	}
-	for d := range w.docIDs {
-		for _, h := range compositeHeads(F.n, w.docIDs[d]) {
-			if forged[h] {
-				return hx.Failf("C12/forged-merged/head", "forged commit %s is a head of %s after the second request", short(h), w.docIDs[d])
-			}
-		}
+	if len(forgedHeads) > 0 {
+		return hx.Failf("C12/forged-merged/head", "forged commits %v are heads after the second request although the commits query does not list them\n%s", forgedHeads, w.history())
 	}
 	if named {
 		w.inf.flag("replay-forged-cid-announced-but-not-merged")
